@@ -2,6 +2,7 @@ import CwMt.Driver.Kv
 import CwMt.Driver.Wasm
 import CwMt.Driver.Bank
 import CwMt.Driver.Addr
+import CwMt.Driver.Route
 /-
   cwmt-driver <slice> : reads ops lines on stdin, answers one line per op on stdout.
   `case <id>` resets the slice state and is echoed.
@@ -16,6 +17,7 @@ structure Slice where
 def slices : List (String × Slice) :=
   [ ("overlay", { σ := Stack, init := .root [], step := stepOverlay }),
     ("views", { σ := Store Val, init := [], step := stepViews }),
+    ("route", { σ := RouteDrv.RouteState, init := {}, step := RouteDrv.stepRoute }),
     ("addr", { σ := Unit, init := (), step := stepAddr }),
     ("bank", { σ := BankSt, init := {}, step := stepBank }),
     ("wasm", { σ := WState, init := {}, step := fun st toks => stepWasm st (" ".intercalate toks) }) ]
